@@ -126,7 +126,7 @@ func c03build(c c03cell) (msg *types.MsgReceiveMessage, fault bool) {
 			case 1:
 				body = append(body, 0)
 			case 2:
-				body = nil
+				body = append(body, make([]byte, 32)...) // one whole 32-byte word too many
 			default:
 				body = body[:4]
 			}
